@@ -129,6 +129,8 @@ def run(ctx):
             ctx.check(not bad, 'C01.thin', f['pq'], f['n'] + f['sig'], fwhere(f), 'only calls Array members',
                       '%s touches Array storage or header directly: %s' % (f['pq'], [pe(b) for b in bad[:3]]))
     ctx.floor('C01.thin members', n, 15)
+    import eqrange
+    ctx.floor('R-EQRANGE', eqrange.check(ctx, prog, 'R-EQRANGE', ('asl::Array::operator==',)), 1)
     import retself
     n = retself.check(ctx, prog, 'R-RETSELF', ('asl::Array', 'asl::Stack', 'asl::Queue'))
     ctx.floor('R-RETSELF members', n, 5)
